@@ -10,7 +10,7 @@ from .common import info
 def run(ctx):
     RH.analyse_builder(ctx, "R02.a", "R02.c", "R09.a")
     RR.hit_from_record(ctx, "R02.b")
-    RR.search_chain_shape(ctx, "R02.b")
+    RR.search_chain_shape(ctx, "R02.b", parts=("result",))
     RR.position_mapping(ctx, "R02.b")
     RC20.forwarders(ctx, "R02.b")
     RH.marker_provenance(ctx, "R02.d")
